@@ -485,6 +485,24 @@ impl<T> IntSet<T> {
     }
 }
 
+#[cfg(googlefonts_fontations_verif)]
+impl<T> IntSet<T> {
+    /// Verification hook (H2): (is_inverted, page_map (major, index) pairs,
+    /// per-physical-page popcounts, cached length) of the underlying bit set.
+    pub fn verif_repr(&self) -> (bool, Vec<(u32, u32)>, Vec<u32>, u64) {
+        match &self.0 {
+            Membership::Inclusive(s) => {
+                let (map, pages, len) = s.verif_repr();
+                (false, map, pages, len)
+            }
+            Membership::Exclusive(s) => {
+                let (map, pages, len) = s.verif_repr();
+                (true, map, pages, len)
+            }
+        }
+    }
+}
+
 impl<T: Domain> FromIterator<T> for IntSet<T> {
     fn from_iter<I: IntoIterator<Item = T>>(iter: I) -> Self {
         let mut s = IntSet::empty();
